@@ -647,7 +647,107 @@ def area_net(ctx, b):
     ctx.count('translated_net_calls', len(b.ops))
 
 
-AREAS = {'net': area_net, 'pbn': area_pbn, 'json': area_json, 'hands': area_hands, 'score': area_score, 'imps': area_imps, 'notation': area_notation, 'auction': area_auction, 'play': area_play}
+def area_msg(ctx, b):
+    """the message builders and parsers of both ends (regular expressions through Model/Regex.lean)"""
+    from bridge_env import Bid, Card, Hands, Player, Suit, Vul
+    from bridge_env.network_bridge.client import Client
+    from bridge_env.network_bridge.server import PlayerThread, Server
+    from bridge_env.network_bridge.socket_interface import MessageInterface
+    rng = ctx.rng
+    deck = [Card.int_to_card(i) for i in range(52)]
+
+    def recase(s):
+        return ''.join(c.upper() if rng.random() < 0.3 else c.lower() if rng.random() < 0.3 else c for c in s)
+
+    def static(cls, clsname, name, *args):
+        b.ops.append(f'Y.meth {clsname} {name} ' + ' '.join(PC.enc(a) for a in args))
+        b.exp.append((PC.outcome(lambda: getattr(cls, name)(*args)), None))
+        b.info.append(f'{clsname}.{name}')
+    formal = {p: p.formal_name for p in Player}
+    # calls: every call x every seat, as the client builds them, in any letter case, with and without alert
+    for bid in Bid:
+        for p in Player:
+            static(Client, 'Client', 'create_bid_message', bid, formal[p])
+            msg = Client.create_bid_message(bid, formal[p])
+            for text in (msg, recase(msg), msg + ' Alert. 15-17', msg + '   alert.'):
+                static(Server, 'Server', 'remove_alert_word', text)
+                static(MessageInterface, 'MessageInterface', 'parse_bid', Server.remove_alert_word(text), formal[p])
+            static(MessageInterface, 'MessageInterface', 'parse_bid', msg, formal[Player((p.value % 4) + 1)])
+    for text, name in [('North bids 8C', 'North'), ('North bids 0S', 'North'), ('North says hello', 'North'), ('', 'North'),
+                       ('North bids 1N', 'North'), ('North bids 1NTX', 'North'), ('north PASSES', 'North'),
+                       ('North  passes', 'North'), ('Northpasses', 'North'), ('North bids 7nt', 'North')]:
+        static(MessageInterface, 'MessageInterface', 'parse_bid', text, name)
+    # cards: every card x every seat, both notations, any letter case
+    for c in deck:
+        static(Client, 'Client', 'card_str', c)
+        for p in (Player.N, Player.E, Player.S, Player.W)[::1 if not ctx.quick else 2]:
+            for body in (Client.card_str(c), str(c)):
+                msg = f'{formal[p]} plays {body}'
+                static(MessageInterface, 'MessageInterface', 'parse_card', msg, p)
+                static(MessageInterface, 'MessageInterface', 'parse_card', recase(msg), p)
+    for text in ['North plays ZZ', 'North plays', 'North plays S', 'North plays 1S', 'East plays SA', 'North plays SAX', 'North plays NT2']:
+        static(MessageInterface, 'MessageInterface', 'parse_card', text, Player.N)
+    # hands
+    n = 40 if ctx.quick else 300
+    for k in range(n):
+        size = rng.choice([0, 1, 5, 13, 13, 13])
+        hand = set(rng.sample(deck, size))
+        text = Server.hand_to_str(hand)
+        static(Client, 'Client', 'parse_hand', text)
+        static(Client, 'Client', 'parse_hand', text + ' ')
+        p = rng.choice(list(Player))
+        cards_msg = f"{formal[p]}'s cards : {text}"
+        static(Client, 'Client', 'parse_cards', cards_msg, formal[p])
+        static(Client, 'Client', 'parse_cards', cards_msg, 'Dummy')
+        static(Client, 'Client', 'parse_cards', f"Dummy's cards : {text}", 'Dummy')
+    for text in ['S -. H -. D -. C -.', 'S A K. H -. D -. C', 'S A K Q. H x. D -. C -.', '', 'S 10 9. H -. D -. C -.']:
+        static(Client, 'Client', 'parse_hand', text)
+    # board headers, team names, leader, connection lines
+    names = ['teamNS', 'Team (A)', 'x', 'a b', 'E/W', 'ſtrange', 'é😀', '', 'N/S : "q"', 'using protocol version 18']
+    for k in range(n):
+        num = rng.choice([1, 2, 16, 100, 12345678901234567890])
+        dealer, vul = rng.choice(list(Player)), rng.choice(list(Vul))
+        static(Server, 'Server', 'convert_vul', vul)
+        header = f'Board number {num}. Dealer {formal[dealer]}. {Server.convert_vul(vul)} vulnerable.'
+        static(Client, 'Client', 'parse_board', header)
+        static(Client, 'Client', 'parse_board', recase(header))
+        ns, ew = rng.choice(names), rng.choice(names)
+        for t in (f'Teams : N/S : "{ns}" E/W : "{ew}"', f'Teams : N/S : "{ns}". E/W : "{ew}"', f'teams : n/s : "{ns}" e/w : "{ew}"'):
+            static(Client, 'Client', 'parse_team_names', t)
+        who = rng.choice(['North', 'East', 'South', 'West', 'Dummy', 'dummy', 'north', 'Nobody'])
+        static(Client, 'Client', 'parse_leader_message', f'{who} to lead', rng.choice(list(Player)))
+        seat = rng.choice(['North', 'east', 'SOUTH', 'West', 'Nobody'])
+        ver = rng.choice([18, 1, 0, 180, 17])
+        line = f'Connecting "{rng.choice(names)}" as {seat} using protocol version {ver}'
+        static(PlayerThread, 'PlayerThread', 'parse_connection_info', line)
+        static(PlayerThread, 'PlayerThread', 'parse_connection_info', recase(line))
+    for t in ['Board number x. Dealer North. Neither vulnerable.', 'Board number 1. Dealer North. Nobody vulnerable.',
+              'Board number 1. Dealer Nobody. Both vulnerable.', 'Teams : N/S : "a" E/W : b', 'Connecting "a" as North using protocol version x', '']:
+        static(Client, 'Client', 'parse_board', t)
+        static(Client, 'Client', 'parse_team_names', t)
+        static(PlayerThread, 'PlayerThread', 'parse_connection_info', t)
+    # PBN deal strings through Hands.convert_pbn / _hand_parser
+    for k in range(n // 2):
+        cards = deck[:]
+        rng.shuffle(cards)
+        hs = [set(cards[i * 13:(i + 1) * 13]) for i in range(4)]
+        for i in range(4):
+            if rng.random() < 0.2:
+                hs[i] = set()
+        h = Hands(*hs)
+        t = h.to_pbn(rng.choice(list(Player)))
+        texts = [t]
+        if rng.random() < 0.5:
+            i = rng.randrange(len(t))
+            texts.append(t[:i] + rng.choice(['', 'X', '.', ' ', '-']) + t[i + 1:])
+        for tt in texts:
+            b.ops.append('Y.meth Hands convert_pbn cHands; ' + PC.enc(tt))
+            b.exp.append((PC.outcome(lambda: Hands.convert_pbn(tt)), None))
+            b.info.append('Hands.convert_pbn')
+    ctx.count('translated_msg_calls', len(b.ops))
+
+
+AREAS = {'msg': area_msg, 'net': area_net, 'pbn': area_pbn, 'json': area_json, 'hands': area_hands, 'score': area_score, 'imps': area_imps, 'notation': area_notation, 'auction': area_auction, 'play': area_play}
 # areas whose input set does not depend on the shard: only shard 0 runs them
 UNSHARDED = {'score', 'imps', 'notation'}
 
